@@ -51,6 +51,14 @@ class KeySet:
         types = ("P-256", "P-384", "P-521", "Ed25519")
 
         def make(name, ktype, enc, material):
+            if not material.endswith("/home-decoy") and os.environ.get("VERIF_HOSTILE_HOME"):
+                # same name, type and encoding, other key material, written to a scratch file and planted in HOME
+                tmpdir = os.path.join(directory, ".decoys")
+                os.makedirs(tmpdir, exist_ok=True)
+                drive.plant_in_home(f"{name}.{enc}", _make_in(tmpdir, name, ktype, enc, material + "/home-decoy"))
+            return _make_in(directory, name, ktype, enc, material)
+
+        def _make_in(directory, name, ktype, enc, material):
             h = hashlib.sha512(material.encode()).digest()
             if ktype == "Ed25519":
                 sk = ed25519.Ed25519PrivateKey.from_private_bytes(h[:32])
@@ -65,7 +73,10 @@ class KeySet:
                                     ser.PrivateFormat.PKCS8, ser.NoEncryption())
             with open(os.path.join(directory, f"{name}.{enc}"), "wb") as fh:
                 fh.write(data)
-            self.keys.setdefault(ktype, []).append(Key(name, ktype, enc, pub))
+            if not material.endswith("/home-decoy"):
+                self.keys.setdefault(ktype, []).append(Key(name, ktype, enc, pub))
+                return data
+            return data
 
         self._make = make
         self._seedstr = seedstr
